@@ -165,6 +165,9 @@ func Begin(s *Scenario) (*Exec, error) {
 		return e, err
 	}
 	e.R = r
+	for _, ph := range s.PreHolds {
+		w.ArmHold(ph.Point, ph.Proc, time.Hour)
+	}
 	go func() {
 		err := r.Run()
 		ev := world.Event{Kind: world.EvMark, Text: "run-returned"}
@@ -187,6 +190,9 @@ func Begin(s *Scenario) (*Exec, error) {
 		e.mu.Unlock()
 	}()
 	e.settleAndSnap(false)
+	if os.Getenv("VERIF_DEBUG_BEGIN") != "" && w.NumEvents() == 0 {
+		fmt.Fprintf(os.Stderr, "DEBUG-BEGIN: no events after first settle\n%s\n", world.DumpText())
+	}
 	return e, nil
 }
 
@@ -364,7 +370,7 @@ func (e *Exec) apply(st Step) bool {
 		}
 		e.call(OpUpdate, "", func() (map[string]string, error) { return e.R.UpdateProject(prj) })
 	case OpHold:
-		e.W.ArmHold(st.Point, st.Proc, 300*time.Millisecond)
+		e.W.ArmHold(st.Point, st.Proc, time.Hour)
 	case OpRelease:
 		e.W.ReleaseHold(st.Point, st.Proc)
 	case OpAwaitState:
